@@ -255,6 +255,51 @@ def shared_definition_check(rr, chk):
     return n
 
 
+def caller_owned_tables_check(rr, chk):
+    """the property table handed to a decorator as a dictionary the caller goes on using (extends it, registers the next type with it): a registered class says what it said
+    when it was registered"""
+    import collections
+    import stix2
+    from stix2.properties import StringProperty
+    n = 0
+    for cat, v in (("objects", "2.1"), ("observables", "2.1"), ("markings", "2.1"), ("extensions", "2.1"), ("objects", "2.0"), ("markings", "2.0"), ("extensions", "2.0"), ("observables", "2.0")):
+        for table in (dict, collections.OrderedDict):
+            rr.restore()
+            mod = stix2.v20 if v == "2.0" else stix2.v21
+            n += 1
+            chk.case(["caller_owned_table", cat, v, table.__name__])
+            props = table([("prop1", StringProperty())])
+            names = ("x-owned-one", "x-owned-two") if cat != "extensions" else ("x-owned-one-ext", "x-owned-two-ext")
+
+            def reg(name):
+                body = type("Body", (object,), {})
+                if cat == "objects":
+                    return mod.CustomObject(name, props)(body)
+                if cat == "observables":
+                    return mod.CustomObservable(name, props)(body)
+                if cat == "markings":
+                    return mod.CustomMarking(name, props)(body)
+                return mod.CustomExtension(name, props)(body)
+            try:
+                first = reg(names[0])
+                before = sorted(first._properties)
+                props["prop2"] = StringProperty()          # the caller extends ITS table
+                props["7up"] = StringProperty()            # ... with a name no registration would admit
+                try:
+                    reg(names[1])
+                except Exception:  # noqa  (the second registration may well be refused: the name is bad)
+                    pass
+                after = sorted(first._properties)
+            except Exception as e:  # noqa
+                chk.notes["caller_owned_table_skipped"] = chk.notes.get("caller_owned_table_skipped", 0) + 1
+                continue
+            if before != after:
+                chk.violation({"entry": "Custom* decorator", "clause": "C19:registered_class_changed_by_later_use_of_the_callers_table", "case": "cat=%s v=%s table=%s" % (cat, v, table.__name__)},
+                              {"cat": cat, "v": v, "properties_at_registration": before, "properties_later": after}, "S2d")
+    rr.restore()
+    chk.stages["S2d_caller_owned_tables"] = {"cases": n}
+
+
 def name_patterns():
     """names enumerated from character classes: every class in first / middle / last position, boundary lengths"""
     out = []
@@ -316,6 +361,7 @@ def run(chk):
         chk.sample({"S2_behaviour": [s["step"] for s in behs[-1]]})
         chk.evaluations += ext_parse_check(rr, chk)
         shared_definition_check(rr, chk)
+        caller_owned_tables_check(rr, chk)
 
         # ---- S3: random histories with wider names + the naming sweep, validated by the trace spec
         lines = []
